@@ -38,6 +38,7 @@ static mut PATS: [Pat; MAX_PATTERNS] = [Pat { bytes: [0; 32], len: 0, kind: 0 };
 static NPATS: AtomicUsize = AtomicUsize::new(0);
 static ARMED: AtomicBool = AtomicBool::new(false);
 static ZERO_ON_FREE: AtomicBool = AtomicBool::new(true);
+static WIPE_ALWAYS: AtomicBool = AtomicBool::new(false);
 
 static FREES: AtomicUsize = AtomicUsize::new(0);
 static BYTES_SCANNED: AtomicUsize = AtomicUsize::new(0);
@@ -62,6 +63,11 @@ pub struct SpyAlloc;
 #[inline]
 unsafe fn scan_and_wipe(p: *mut u8, n: usize) {
     if !ARMED.load(SeqCst) {
+        // leak-detection processes wipe every released block, armed or not, so that bytes the harness itself
+        // released earlier cannot resurface in the uninitialised slack of a library buffer
+        if WIPE_ALWAYS.load(SeqCst) {
+            std::ptr::write_bytes(p, 0, n);
+        }
         return;
     }
     FREES.fetch_add(1, SeqCst);
@@ -145,7 +151,7 @@ unsafe impl GlobalAlloc for SpyAlloc {
     }
 
     unsafe fn realloc(&self, p: *mut u8, l: Layout, ns: usize) -> *mut u8 {
-        if !ARMED.load(SeqCst) {
+        if !ARMED.load(SeqCst) && !WIPE_ALWAYS.load(SeqCst) {
             if !note_alloc(ns) {
                 return std::ptr::null_mut();
             }
@@ -193,6 +199,10 @@ pub fn pattern_count() -> usize {
 
 pub fn arm() {
     ARMED.store(true, SeqCst);
+}
+
+pub fn set_wipe_always(on: bool) {
+    WIPE_ALWAYS.store(on, SeqCst);
 }
 
 pub fn disarm() {
